@@ -22,7 +22,9 @@ CONF = dict(
  'decreasing delays) whose outputs show the effective window size and pick count. Long histories: 300 and 600 samples per filter in the quick tier, 70000 in the thorough tier. '
  'lucky.inter / ntimed.inter: two or three instances with own configurations and sample streams called in a random interleaving (the clock may step between any two calls), each compared '
  'with its own model run and oracle. mono: a few histories whose client times derive from time.Now() and carry a monotonic reading. ntimed.epochsrc: one source check (go/ast) of '
- 'driver/clocks/sysclk_linux.go. distinct = distinct (kind, input)'),
+ 'driver/clocks/sysclk_linux.go. svc.filters: the service\'s own createClocks (wiring hook timeservice_wiring_verif.go through harness/svclib, nothing is started) on configurations with '
+ '0-3 IP and 0-3 SCION NTP reference clocks in random order, 0-3 SCION peers, with/without a stub daemon, auth modes none/nts/spao/both: every client (1 per IP clock, 7 per SCION clock) '
+ 'must hold a *client.NtimedFilter and all filter pointers must be pairwise distinct; skipped with a NOTE when the hook is absent. distinct = distinct (kind, input)'),
     assumptions=['float64 arithmetic of Go on amd64 = IEEE-754 binary64 round-to-nearest-even without FMA contraction, math.Sqrt = correctly rounded SQRTSD (Flocq '
  'BinarySingleNaN); int64(float64) = CVTTSD2SQ (-2^63 when out of range)',
  'slices.SortFunc returns a sorted permutation (its contract); the lucky-packet selection theorem is proved for every such permutation under pairwise distinct delays '
@@ -62,13 +64,13 @@ CONF = dict(
  '(C17_lucky_reset_fresh/_state, C17_ntimed_reset_fresh/_state/_epoch_fresh) and checked on the implementation by the reset kinds. Ties: exact for windows of at most 12 samples '
  '(C17_lucky_ties: Go\'s insertion sort = stable sort, the older sample of equal delay is kept; the oracle judges these windows too); windows of 13 and more samples with tied delays '
  '(pdqsort proper, not modelled) are accepted by an executable relation (some choice among the tied samples) without a soundness theorem. "Within the learned bounds" is evaluated '
- 'with the limits of the model state. Outside C17: the callers\' wiring (client_ip.go / client_scion.go handing t0..t3 to Filter.Do in this order - covered by C03; timeservice.go '
- 'installing NewNtimedFilter) and the real SystemClock (only the syntactic tie ntimed.epochsrc).'),
+ 'with the limits of the model state. One filter instance per client (the instance the reset/warm-up theorems speak about) is checked on the real createClocks (svc.filters, C17_filters_expected / _shared_rejected). '
+ 'Outside C17: the callers\' wiring (client_ip.go / client_scion.go handing t0..t3 to Filter.Do in this order - covered by C03) and the real SystemClock (only the syntactic tie ntimed.epochsrc).'),
     explanation=('C17_lucky_spec/_oracle: for all histories the configured filter returns the median offset of the min(k,N) lowest-delay samples of the last N since Reset; '
  'C17_ntimed_raw_young/_within: raw offset during warm-up and within bounds; C17_ntimed_raw_close/_sign: that raw offset is within 2 ns + 2^-50 relative of ntp.ClockOffset with its sign; '
  'C17_ntimed_reset/_restart/_reset_fresh: outputs after a reset point are those of a new filter, for all states; C17_lucky_reset_fresh: the same for the lucky-packet filter; '
  'C17_lucky_ties: equal delays keep the older sample (windows up to 12); C17_ntimed_raw_wide/_corner: behaviour beyond 2^62 ns; C17_ntimed_oracle: the model meets the whole Ntimed oracle on all histories.'),
     timeout_quick=600,
     timeout_thorough=3000,
-    min_cases={'lucky.hist': 365, 'lucky.inter': 60, 'lucky.new': 16, 'lucky.reset': 120, 'lucky.wild': 90, 'ntimed.corner': 11, 'ntimed.epochsrc': 1, 'ntimed.hist': 364, 'ntimed.inter': 60, 'ntimed.reset': 120, 'ntimed.wild': 90},
+    min_cases={'lucky.hist': 365, 'lucky.inter': 60, 'lucky.new': 16, 'lucky.reset': 120, 'lucky.wild': 90, 'ntimed.corner': 11, 'ntimed.epochsrc': 1, 'ntimed.hist': 364, 'ntimed.inter': 60, 'ntimed.reset': 120, 'ntimed.wild': 90, 'svc.filters': 12},
 )
